@@ -3,8 +3,9 @@
    playtak/bot/bot.go as a transition system over an abstract game: any position type, any move
    function, any turn predicate — the instance run against the code is BotInst.v), the server is the
    environment of Bot.v (srv_emit / srv_hears / env_allows).  Proofs: BotFacts.v. *)
-From Coq Require Import List Bool Arith.
+From Coq Require Import List Bool Arith NArith ZArith.
 Require Import Bot BotFacts.
+Require PtnMove Playtak PtnMoveFacts BotLine BotLineFacts BotLineFacts2.
 Import ListNotations.
 
 (* The full statement of DESIGN 5.7, for the repaired loop (fixed = true), any game, any colour
@@ -80,3 +81,84 @@ Theorem C07_env_ok_nonvacuous :
   ~ env_ok nat nat toy_apply Nat.even (fun _ => false) 0 true true [Answer nat 1; Line nat (LUndo nat)].
 Proof. exact (conj toy_script_ok (conj toy_script_result toy_undo_unacked)). Qed.
 Print Assumptions C07_env_ok_nonvacuous.
+
+(* ------------------------------------------------------------------------------------------------------------------
+   The LINE LAYER.  BotLine.classify gs l is what handleMove does with one received raw line l (bytes) when g.GameStr = gs:
+   strings.Split(l, " "), the first switch (GameStr / Tell / Shout / ShoutRoom / default), the second switch on bits[1] with
+   its index accesses, strconv.Atoi on the clock fields, ParseServer on strings.Join(bits[1:], " "): the event of Bot.v
+   (l_ev, moves = raw wire moves), the chat callback (l_chat) and the clocks (l_times).  The check feeds the raw bytes of
+   every line of every schedule to the extracted classify.
+
+   BotLineFacts2.server_says gs l e: "a protocol-conforming server, talking about game gs, sends the line l and means e":
+     gs ++ " " ++ Playtak.format_server m   (m legal_shape, end_on_grid: every legal move)        means  LMove m
+     gs ++ " Time " ++ w ++ " " ++ b ++ t    (w, b without blanks; t empty or starting with a blank)  means  LTime
+     gs ++ " Over " ++ r                      (any r)                                                  means  LOver
+     gs ++ " Abandoned." ++ t,  gs ++ " RequestUndo" ++ t,  gs ++ " Undo" ++ t                         mean   LAbandoned, LReqUndo, LUndo
+     any line whose first word (text before the first blank) is neither gs nor "Tell"                 means  LOther
+        - lines of other games, Shout and ShoutRoom lines WHATEVER their text (protocol words and the game string as room,
+          name or message included), OK, Online 12, the empty line, ...
+     "Tell <" ++ x   (any x)                                                                         means  LOther
+   Every such line is classified as the intended event, and none of them makes the loop panic.  (This is the statement
+   behind seeded change C07-F, which lets ShoutRoom lines reach the second switch.) *)
+Theorem C07_classify_server_lines : forall (gs l : list N) (e : line PtnMove.move),
+  ~ In 32%N gs -> BotLineFacts2.server_says gs l e ->
+  BotLine.l_ev (BotLine.classify gs l) = e /\ e <> LBad _.
+Proof. exact BotLineFacts2.classify_server_lines. Qed.
+Print Assumptions C07_classify_server_lines.
+
+(* EXACTLY which raw lines make the real loop panic (C07's environment excludes them: env_allows refuses Line LBad):
+   the first word is the game string or "Tell" (the Tell branch of the first switch has no `continue`) and
+   there is no second word, or the second word is P / M and ParseServer rejects the text after the first blank,
+   or the line is "<first> Over", "<first> Time" or "<first> Time <w>" (bits[2] / bits[3]: index out of range).
+   NOTE (robustness, outside the property: no server writes such lines): because of the missing `continue`, a line
+   "Tell <second word> ..." whose second word is a protocol word is executed as a line of the bot's own game:
+   "Tell Undo" pops the record, "Tell Over x" ends the loop, "Tell P A1" is taken as a move, "Tell" alone panics
+   (BotLineFacts2.tell_falls_through, panic_examples; the real loop does the same: hostile schedules of the check). *)
+Theorem C07_classify_panics : forall gs l : list N,
+  BotLine.l_ev (BotLine.classify gs l) = LBad _ <-> BotLineFacts2.panics gs l.
+Proof. exact BotLineFacts2.classify_bad_iff. Qed.
+Print Assumptions C07_classify_panics.
+
+(* (BotLineFacts2.w_time is the word "Time".)  The clocks of a Time line are strconv.Atoi of the two fields (error ignored) times time.Second in int64; for the plain
+   decimal numbers a server writes (value < 2^63) Atoi's value is the number. *)
+Theorem C07_classify_time : forall gs w b t : list N,
+  ~ In 32%N gs -> ~ In 32%N w -> ~ In 32%N b -> BotLineFacts2.tail_ok t ->
+  BotLine.l_times (BotLine.classify gs (gs ++ 32%N :: BotLineFacts2.w_time ++ 32%N :: w ++ 32%N :: b ++ t)) =
+    Some (BotLine.seconds (BotLine.atoi_value w), BotLine.seconds (BotLine.atoi_value b)) /\
+  (forall s, s <> [] -> forallb BotLineFacts2.is_digit s = true -> (BotLineFacts2.dec_val s 0 < 2 ^ 63)%Z ->
+     BotLine.atoi_value s = BotLineFacts2.dec_val s 0).
+Proof. exact (fun gs w b t Hg Hw Hb Ht => conj (BotLineFacts2.classify_time gs w b t Hg Hw Hb Ht) BotLineFacts2.atoi_value_decimal). Qed.
+Print Assumptions C07_classify_time.
+
+(* C07_bot_tracks_server over RAW lines: revs is what the loop really receives (raw byte lines, closing, thinker returns,
+   timer expiries); evs the abstract events a conforming server means by them (conforms = server_says on the lines).
+   Then the raw lines are classified as exactly evs, and if the server keeps its contract on evs the loop, run on the raw
+   events through handleMove's own switches, tracks the server (same conclusion as C07_bot_tracks_server). *)
+Theorem C07_bot_tracks_server_raw :
+  forall (pos : Type) (apply : pos -> PtnMove.move -> option pos) (bots_turn over : pos -> bool) (start : pos)
+         (accept_undo : bool) (gs : list N), ~ In 32%N gs ->
+  forall (revs : list BotLine.raw_event) (evs : list (event PtnMove.move)),
+  Forall2 (BotLineFacts2.conforms gs) revs evs ->
+  env_ok pos PtnMove.move apply bots_turn over start true accept_undo evs ->
+  let s := run pos PtnMove.move apply bots_turn over start true accept_undo (map (BotLine.ev_of gs) revs) in
+  map (BotLine.ev_of gs) revs = evs /\
+  exists v, run2 pos PtnMove.move apply bots_turn over start true accept_undo (map (BotLine.ev_of gs) revs) = Some (s, v) /\
+    hist _ _ s = shist _ _ v /\ moves _ _ s = smoves _ _ v /\
+    Forall (sent_ok pos PtnMove.move apply bots_turn) (out _ _ s) /\ noks _ _ v = 0 /\
+    (ended _ _ s = true <-> existsb (is_end PtnMove.move) evs = true) /\
+    crashed _ _ s = false.
+Proof. exact BotLineFacts2.bot_tracks_server_raw. Qed.
+Print Assumptions C07_bot_tracks_server_raw.
+
+(* non-vacuity: a script of 13 raw events (moves of both kinds, a Time line, an accepted undo, Abandoned., chat lines that
+   carry protocol words and the game string, a line of game Game#71) conforms, its meaning satisfies env_ok, and the run
+   ends with three recorded moves, two transmitted, one undo accepted, no crash. *)
+Theorem C07_raw_nonvacuous :
+  Forall2 (BotLineFacts2.conforms BotLineFacts2.g7) BotLineFacts2.raw_script BotLineFacts2.raw_meaning /\
+  env_ok nat PtnMove.move BotLineFacts2.raw_apply Nat.even (fun _ => false) 0 true true BotLineFacts2.raw_meaning /\
+  (let s := run nat PtnMove.move BotLineFacts2.raw_apply Nat.even (fun _ => false) 0 true true
+              (map (BotLine.ev_of BotLineFacts2.g7) BotLineFacts2.raw_script) in
+   (rev (moves _ _ s), length (out _ _ s), undo_acks _ _ s, ended _ _ s, crashed _ _ s) =
+   ([BotLineFacts2.mA1; BotLineFacts2.mB2c; BotLineFacts2.mSl], 2, 1, true, false)).
+Proof. exact (conj BotLineFacts2.raw_script_conforms (conj BotLineFacts2.raw_script_env_ok BotLineFacts2.raw_script_result)). Qed.
+Print Assumptions C07_raw_nonvacuous.
